@@ -198,7 +198,8 @@ def run(pid, tier):
     from .sweep import run_family
     ruled = [(sp, b) for sp, b in family(tier) if b in ("yaml", "shipped") and "subnets" in sp and (
         any(h.get("firewall") for h in sp["hosts"].values())
-        or any(sorted(v) != sorted(sp["services"]) for k, v in sp["firewall"].items() if k[1] != 0))]
+        or any(sorted(v) != sorted(sp["services"]) for k, v in sp["firewall"].items() if k[1] != 0)
+        or sp.get("_path_only"))]      # large files: "allow" rules and the topology are rules of the file too
     agg, dyn_viol, errors = run_family(["C01", "C02"], tier, {}, entries=ruled)
     if errors:
         raise HarnessError("; ".join(errors[:3]))
